@@ -335,6 +335,14 @@ func (n *AbsfsNFS) UpdateExportOptions(newOptions ExportOptions) error {
 		return fmt.Errorf("nil server")
 	}
 
+	// Validate immutable fields before applying any change, so that a
+	// rejected update leaves the whole configuration untouched.
+	// Squash cannot be changed at runtime.
+	currentPolicy := n.policy.Load()
+	if newOptions.Squash != "" && newOptions.Squash != currentPolicy.Squash {
+		return fmt.Errorf("cannot change Squash mode at runtime (requires restart)")
+	}
+
 	// Apply tuning changes (lock-free, immediate).
 	// Use tuningFromExportOptions for complete field coverage.
 	// Preserve Timeouts and Log from the current snapshot when not provided,
@@ -349,13 +357,6 @@ func (n *AbsfsNFS) UpdateExportOptions(newOptions ExportOptions) error {
 		}
 		*t = *newTuning
 	})
-
-	// Validate immutable fields before attempting policy update.
-	// Squash cannot be changed at runtime.
-	currentPolicy := n.policy.Load()
-	if newOptions.Squash != "" && newOptions.Squash != currentPolicy.Squash {
-		return fmt.Errorf("cannot change Squash mode at runtime (requires restart)")
-	}
 
 	// Apply policy changes (drain-and-swap)
 	newPolicy := PolicyOptions{
